@@ -122,6 +122,23 @@ Definition m_observation (c : fctx) (st : mstate) (k : Z) : list Z :=
          sload_of (m_storage st) (c_this c) k; sload_of (m_transient st) (c_this c) k;
          balance_of st (c_this c)].
 
+(* EXTCODESIZE / EXTCODECOPY of account [a] (concrete address): len(ex.code[alias]) or ZERO;
+   then the copy of 32 bytes from [off] over memory holding 0xff bytes -- Contract.slice for
+   an account that qualifies, else a run of zero bytes of the length the Python produces *)
+Definition m_ext_observation (st : mstate) (a off : Z) : list Z :=
+  let a' := a mod 2 ^ 160 in
+  let code := code_at st a' in
+  let size := if in_code st a' then blen code else 0 in
+  let mem0 := repeat 255 32 in
+  let mem :=
+    if extcodecopy_guard 32 then
+      let copied := if extcodecopy_use_code (in_code st a') (blen code)
+                    then code_window code off
+                    else repeat 0 (Z.to_nat (extcodecopy_empty_len off 32)) in
+      firstn 32 (copied ++ skipn (length copied) mem0)
+    else mem0 in
+  words [size] ++ mem.
+
 (* copy_returndata_to_memory into the zero-initialised [rsz]-byte return area *)
 Definition m_ret_area (rsz : Z) (data : list Z) : list Z :=
   let eff := Z.to_nat (effective_ret_size rsz (blen data)) in
@@ -255,6 +272,7 @@ Fixpoint mexec (s : script) (c : fctx) (st : mstate) (ob : list Z) (l : lastsub)
         mexec rest c st (ob ++ firstn (Z.to_nat size) (skipn (Z.to_nat off) (returndata l))) l
       else mexec rest c st ob l
   | SIf cond s1 s2 => if cond =? 0 then mexec s2 c st ob l else mexec s1 c st ob l
+  | SExtCode a off rest => mexec rest c st (ob ++ m_ext_observation st a off) l
   | SCall kd to v rsz callee rest =>
       m_call kd to v rsz c st ob
         (fun c' st' => mexec callee c' st' [] None)
